@@ -14,12 +14,12 @@ SHARDS = {"quick": 4, "thorough": 16}
 WATCHDOG = {"quick": 900, "thorough": 3000}
 SOAK = {"thorough": ['tests/stress/test_equistress.py', 'tests/strength']}      # contract soak (pv/contracts_more.py) under the repository's own tests
 REQUIRED_CLASSES = {t: ["tensor:uniaxial", "tensor:pure_shear", "tensor:hydrostatic", "tensor:repeated_eigenvalues", "tensor:zero",
-                        "tensor:generic", "tensor:rotated_hydrostatic", "tensor:shear_only_in_plane_12", "tensor:shear_only_in_plane_13", "tensor:shear_only_in_plane_23", "input:scalar", "input:columns", "sign:near_tie_not_judged",
+                        "tensor:generic", "tensor:rotated_hydrostatic", "tensor:shear_only_in_plane_12", "tensor:shear_only_in_plane_13", "tensor:shear_only_in_plane_23", "input:scalar", "input:columns", "input:integer_typed_columns", "sign:near_tie_not_judged",
                         "sign:exact_tie_unrotated"]
                     for t in ("quick", "thorough")}
 REQUIRED_MONITORS = ["rotation_invariant:eigen_based", "rotation_invariant:mises^2", "homogeneous", "definition:mises", "definition:tresca",
                      "definition:principals", "definition:abs_max_principal", "mises<=tresca<=2/sqrt3*mises", "signed:magnitude",
-                     "signed:sign", "signed:zero_indicator_gives_+1", "abs_max_principal:exact_tie_is_positive", "accessor==functions", "finite_and_real"]
+                     "signed:sign", "signed:zero_indicator_gives_+1", "abs_max_principal:exact_tie_is_positive", "accessor==functions", "finite_and_real", "integer_components==float_components"]
 RULE = ("seeded symmetric 3x3 tensors (uniaxial, pure shear, hydrostatic, repeated eigenvalues, zero, generic; magnitudes 1e-3..1e4) x "
         "random rotations (QR of a Gaussian matrix, det +1) x positive scale factors; scalar components and column arrays; the "
         "accessor df.equistress.* row by row. Definitions come from numpy.linalg.eigvalsh of the assembled tensor. Signs are not "
@@ -211,3 +211,15 @@ def run_case(case, ctx):
         if not (ulps and same(np.asarray(acc, dtype=float), col) and list(acc.index) == list(df.index)):
             ok, bad = False, {"function": name, "columns": col, "scalar_calls": one, "accessor": np.asarray(acc, dtype=float)}
     ctx.check("accessor==functions", ok, observed=bad, tags=mech)
+    # ---- integer typed components (solver output in Pa, kPa ...): the same numbers as for the float copy of the columns
+    ctx.tag("input:integer_typed_columns")
+    dt = [np.int32, np.int64][int(rng.integers(0, 2))]
+    mag = int(10 ** rng.integers(1, 6))
+    ints = rng.integers(-mag, mag + 1, size=(4, 6)).astype(dt)
+    ok, bad = True, None
+    for name, f in fns.items():
+        gi = np.asarray(f(*[ints[:, j] for j in range(6)]), dtype=float)
+        gf = np.asarray(f(*[ints[:, j].astype(float) for j in range(6)]), dtype=float)
+        if not bool(np.all(np.abs(gi - gf) <= 1e-12 * mag)):
+            ok, bad = False, {"function": name, "dtype": str(np.dtype(dt)), "integer": gi, "float": gf, "components": ints}
+    ctx.check("integer_components==float_components", ok, observed=bad, tags=["c17_integer_components_overflow"])
